@@ -142,23 +142,25 @@ Section Sound.
   Variable V : Type.
   Variable own : nat -> owner.
 
-  Notation covers := (covers own).
+  Variable M : name -> bool.      (* the relevant names: a superset of what the analysed body mentions *)
+
+  Notation covers := (covers_on own M).
   Notation exec := (exec V own).
   Definition fresh_trace (t : list (nat * V)) : Prop := Forall (fun w => own (fst w) = Fresh) t.
 
   Lemma covers_mono : forall st A B, covers st A -> (forall m, mem m A = true -> mem m B = true) -> covers st B.
-  Proof. intros st A B H HAB n b Hn Hu. apply HAB. eapply H; eauto. Qed.
+  Proof. intros st A B H HAB n b HMn Hn Hu. apply HAB. eapply H; eauto. Qed.
 
-  Definition post (o : outcome) (N B C : tset) : Prop :=
+  Definition post (o : outcome) (N B C R : tset) : Prop :=
     match o with
     | Norm st' => covers st' N
     | Brk st' => covers st' B
     | Cont st' => covers st' C
-    | Raised => True
+    | Raised st' => covers st' R
     end.
 
-  Definition sound_at (s : stmt) (T N B C : tset) : Prop :=
-    forall st t o, covers st T -> exec s st t o -> fresh_trace t /\ post o N B C.
+  Definition sound_at (s : stmt) (T N B C R : tset) : Prop :=
+    forall st t o, covers st T -> exec s st t o -> fresh_trace t /\ post o N B C R.
 
   Lemma fresh_app : forall t1 t2, fresh_trace t1 -> fresh_trace t2 -> fresh_trace (t1 ++ t2).
   Proof. intros. apply Forall_app. split; assumption. Qed.
@@ -166,19 +168,54 @@ Section Sound.
   Lemma any_mem_true : forall srcs T s, In s srcs -> mem s T = true -> any_mem srcs T = true.
   Proof. intros srcs T s Hin Hm. unfold any_mem. apply existsb_exists. exists s. split; assumption. Qed.
 
+  Lemma union_l : forall A B m, mem m A = true -> mem m (union A B) = true.
+  Proof. intros. apply mem_union_iff. auto. Qed.
+  Lemma union_r : forall A B m, mem m B = true -> mem m (union A B) = true.
+  Proof. intros. apply mem_union_iff. auto. Qed.
+
+  (* the raise set contains the entry set: a raise may happen before anything is done *)
+  Lemma analyse_R_ge : forall s T N B C R, analyse s T = Ok N B C R ->
+    forall m, mem m T = true -> mem m R = true.
+  Proof.
+    induction s as [ | a IHa b IHb | n r | n l | a IHa b IHb | body IHb | | | l ];
+      intros T N B C R Han m Hm; cbn [analyse] in Han.
+    - inversion Han; subst; exact Hm.
+    - destruct (analyse a T) as [Na Ba Ca Ra|] eqn:Ea; [|discriminate].
+      destruct (analyse b Na) as [Nb Bb Cb Rb|] eqn:Eb; [|discriminate].
+      inversion Han; subst. apply union_l. eapply IHa; eauto.
+    - inversion Han; subst; exact Hm.
+    - destruct (mem n T); [discriminate|]. inversion Han; subst; exact Hm.
+    - destruct (analyse a T) as [Na Ba Ca Ra|la] eqn:Ea; destruct (analyse b T) as [Nb Bb Cb Rb|lb] eqn:Eb;
+        try discriminate.
+      inversion Han; subst. apply union_l. eapply IHa; eauto.
+    - set (step := fun I => match analyse body I with Ok N0 _ C0 _ => union I (union N0 C0) | Bad _ => I end) in Han.
+      set (inv := iter loop_fuel step T) in Han.
+      destruct (analyse body inv) as [Nb Bb Cb Rb|] eqn:Eb; [|discriminate].
+      destruct (subset T inv && subset Nb inv && subset Cb inv) eqn:Es; [|discriminate].
+      inversion Han; subst. apply andb_true_iff in Es. destruct Es as [Es _].
+      apply andb_true_iff in Es. destruct Es as [Es1 _].
+      apply union_l. eapply subset_mem; eauto.
+    - inversion Han; subst; exact Hm.
+    - inversion Han; subst; exact Hm.
+    - discriminate.
+  Qed.
+
   (* loops: an invariant that contains the entry state and is preserved by the body *)
-  Lemma loop_sound : forall body inv N B C,
-    sound_at body inv N B C ->
+  Lemma loop_sound : forall body inv N B C R,
+    sound_at body inv N B C R ->
     (forall m, mem m N = true -> mem m inv = true) ->
     (forall m, mem m C = true -> mem m inv = true) ->
     forall st t o, exec (SLoop body) st t o -> covers st inv ->
-      fresh_trace t /\ match o with Norm st' => covers st' (union inv B) | Raised => True | _ => False end.
+      fresh_trace t /\ match o with
+                       | Norm st' => covers st' (union inv B)
+                       | Raised st' => covers st' (union inv R)
+                       | _ => False end.
   Proof.
-    intros body inv N B C Hb HN HC st t o Hex.
+    intros body inv N B C R Hb HN HC st t o Hex.
     remember (SLoop body) as s eqn:Es. revert Es.
     induction Hex; intros Es Hcov; try discriminate Es.
-    - split; [constructor | exact I].
-    - split; [constructor|]. eapply covers_mono; [exact Hcov|]. intros m Hm. apply mem_union_iff. auto.
+    - split; [constructor|]. eapply covers_mono; [exact Hcov|]. intros m Hm. apply union_l; exact Hm.
+    - split; [constructor|]. eapply covers_mono; [exact Hcov|]. intros m Hm. apply union_l; exact Hm.
     - inversion Es; subst body0. destruct (Hb _ _ _ Hcov Hex1) as [F1 P1]. simpl in P1.
       assert (Hc1 : covers st1 inv) by (eapply covers_mono; [exact P1 | exact HN]).
       destruct (IHHex2 eq_refl Hc1) as [F2 P2]. split; [apply fresh_app; assumption | exact P2].
@@ -186,83 +223,100 @@ Section Sound.
       assert (Hc1 : covers st1 inv) by (eapply covers_mono; [exact P1 | exact HC]).
       destruct (IHHex2 eq_refl Hc1) as [F2 P2]. split; [apply fresh_app; assumption | exact P2].
     - inversion Es; subst body0. destruct (Hb _ _ _ Hcov Hex) as [F1 P1]. simpl in P1.
-      split; [exact F1|]. eapply covers_mono; [exact P1|]. intros m Hm. apply mem_union_iff. auto.
-    - inversion Es; subst body0. destruct (Hb _ _ _ Hcov Hex) as [F1 _]. split; [exact F1 | exact I].
+      split; [exact F1|]. eapply covers_mono; [exact P1|]. intros m Hm. apply union_r; exact Hm.
+    - inversion Es; subst body0. destruct (Hb _ _ _ Hcov Hex) as [F1 P1]. simpl in P1.
+      split; [exact F1|]. eapply covers_mono; [exact P1|]. intros m Hm. apply union_r; exact Hm.
   Qed.
 
-  Theorem analyse_sound : forall s T N B C, analyse s T = Ok N B C -> sound_at s T N B C.
+  Theorem analyse_sound : forall s, (forall m, mentions m s = true -> M m = true) ->
+    forall T N B C R, analyse s T = Ok N B C R -> sound_at s T N B C R.
   Proof.
     induction s as [ | a IHa b IHb | n r | n l | a IHa b IHb | body IHb | | | l ];
-      intros T N B C Han st t o Hcov Hex; cbn [analyse] in Han.
+      intros HM T N B C R Han st t o Hcov Hex; pose proof (analyse_R_ge _ _ _ _ _ _ Han) as HTR; cbn [analyse] in Han.
     - (* SSkip *) inversion Han; subst. inversion Hex; subst; (split; [constructor | simpl; auto]).
     - (* SSeq *)
-      destruct (analyse a T) as [Na Ba Ca|] eqn:Ea; [|discriminate].
-      destruct (analyse b Na) as [Nb Bb Cb|] eqn:Eb; [|discriminate].
-      inversion Han; subst. specialize (IHa _ _ _ _ Ea). specialize (IHb _ _ _ _ Eb).
+      destruct (analyse a T) as [Na Ba Ca Ra|] eqn:Ea; [|discriminate].
+      destruct (analyse b Na) as [Nb Bb Cb Rb|] eqn:Eb; [|discriminate].
+      assert (HMa : forall m, mentions m a = true -> M m = true)
+        by (intros m Hm; apply HM; cbn [mentions]; rewrite Hm; reflexivity).
+      assert (HMb : forall m, mentions m b = true -> M m = true)
+        by (intros m Hm; apply HM; cbn [mentions]; rewrite Hm; apply orb_true_r).
+      inversion Han; subst. specialize (IHa HMa _ _ _ _ _ Ea). specialize (IHb HMb _ _ _ _ _ Eb).
       inversion Hex; subst.
-      + split; [constructor | exact I].
+      + split; [constructor|]. simpl. eapply covers_mono; [exact Hcov | exact HTR].
       + match goal with Ha : exec a _ _ (Norm _), Hb : exec b _ _ _ |- _ =>
           destruct (IHa _ _ _ Hcov Ha) as [F1 P1]; simpl in P1;
           destruct (IHb _ _ _ P1 Hb) as [F2 P2] end.
         split; [apply fresh_app; assumption|].
-        destruct o; simpl in *; auto; (eapply covers_mono; [exact P2|]; intros m Hm; apply mem_union_iff; auto).
+        destruct o; simpl in *; auto; (eapply covers_mono; [exact P2|]; intros m Hm; apply union_r; exact Hm).
       + match goal with Ha : exec a _ _ _ |- _ => destruct (IHa _ _ _ Hcov Ha) as [F1 P1] end.
         split; [exact F1|]. simpl in *.
-        eapply covers_mono; [exact P1|]. intros m Hm. apply mem_union_iff. auto.
+        eapply covers_mono; [exact P1|]. intros m Hm. apply union_l; exact Hm.
       + match goal with Ha : exec a _ _ _ |- _ => destruct (IHa _ _ _ Hcov Ha) as [F1 P1] end.
         split; [exact F1|]. simpl in *.
-        eapply covers_mono; [exact P1|]. intros m Hm. apply mem_union_iff. auto.
-      + match goal with Ha : exec a _ _ _ |- _ => destruct (IHa _ _ _ Hcov Ha) as [F1 _] end.
-        split; [exact F1 | exact I].
+        eapply covers_mono; [exact P1|]. intros m Hm. apply union_l; exact Hm.
+      + match goal with Ha : exec a _ _ _ |- _ => destruct (IHa _ _ _ Hcov Ha) as [F1 P1] end.
+        split; [exact F1|]. simpl in *.
+        eapply covers_mono; [exact P1|]. intros m Hm. apply union_l; exact Hm.
     - (* SBind *)
-      inversion Han; subst. inversion Hex; subst; (split; [constructor|]); [exact I|].
+      inversion Han; subst. inversion Hex; subst; (split; [constructor|]); [simpl; exact Hcov|].
       match goal with Hr : rhs_sem _ _ _ _ |- _ => rename Hr into H4 end.
-      simpl. intros m b Hm Hu. unfold upd in Hm.
+      assert (HMs : forall s, rhs_mentions s r = true -> M s = true)
+        by (intros s Hs; apply HM; cbn [mentions]; rewrite Hs; apply orb_true_r).
+      simpl. intros m b HMm Hm Hu. unfold upd in Hm.
       destruct (String.eqb n m) eqn:Enm.
       + apply String.eqb_eq in Enm. subst m.
-        assert (Ht : tainted_rhs r T = true).
+        assert (Ht : tainted_rhs r R = true).
         { destruct r as [ | srcs | cw srcs | ck srcs | ]; simpl in H4 |- *.
           - specialize (H4 _ Hm). rewrite H4 in Hu. discriminate.
           - destruct (H4 _ Hm) as [Hf | [s [Hs Hb]]]; [rewrite Hf in Hu; discriminate|].
-            eapply any_mem_true; [exact Hs|]. eapply Hcov; eauto.
+            eapply any_mem_true; [exact Hs|].
+            eapply Hcov; [apply HMs; simpl; apply mem_In; exact Hs | exact Hb | exact Hu].
           - destruct (H4 _ Hm) as [Hf | [Hcw [s [Hs Hb]]]]; [rewrite Hf in Hu; discriminate|].
             subst cw. rewrite setup_w_may_alias_false. simpl.
-            eapply any_mem_true; [exact Hs|]. eapply Hcov; eauto.
+            eapply any_mem_true; [exact Hs|].
+            eapply Hcov; [apply HMs; simpl; apply mem_In; exact Hs | exact Hb | exact Hu].
           - destruct (H4 _ Hm) as [Hf | [Hck [s [Hs Hb]]]]; [rewrite Hf in Hu; discriminate|].
             subst ck. rewrite setup_kw_may_alias_false. simpl.
-            eapply any_mem_true; [exact Hs|]. eapply Hcov; eauto.
+            eapply any_mem_true; [exact Hs|].
+            eapply Hcov; [apply HMs; simpl; apply mem_In; exact Hs | exact Hb | exact Hu].
           - reflexivity. }
         rewrite Ht. apply mem_add_iff. auto.
       + assert (Hne : m <> n) by (intros ->; rewrite String.eqb_refl in Enm; discriminate).
-        pose proof (Hcov _ _ Hm Hu) as HmT.
-        destruct (tainted_rhs r T); [apply mem_add_iff; auto | apply mem_remove_iff; auto].
+        pose proof (Hcov _ _ HMm Hm Hu) as HmT.
+        destruct (tainted_rhs r R); [apply mem_add_iff; auto | apply mem_remove_iff; auto].
     - (* SWrite *)
       destruct (mem n T) eqn:Em; [discriminate|]. inversion Han; subst.
       inversion Hex; subst.
-      + split; [constructor | exact I].
+      + split; [constructor | simpl; exact Hcov].
       + split; [|simpl; exact Hcov]. constructor; [|constructor]. simpl.
+        assert (HMn : M n = true) by (apply HM; cbn [mentions]; apply String.eqb_refl).
         match goal with Hs : st n ?bb |- _ =>
-          destruct (own bb) eqn:Eo; [|reflexivity]; rewrite (Hcov _ _ Hs Eo) in Em; discriminate end.
+          destruct (own bb) eqn:Eo; [|reflexivity]; rewrite (Hcov _ _ HMn Hs Eo) in Em; discriminate end.
     - (* SIf *)
-      destruct (analyse a T) as [Na Ba Ca|la] eqn:Ea; destruct (analyse b T) as [Nb Bb Cb|lb] eqn:Eb;
+      destruct (analyse a T) as [Na Ba Ca Ra|la] eqn:Ea; destruct (analyse b T) as [Nb Bb Cb Rb|lb] eqn:Eb;
         try discriminate.
-      inversion Han; subst. specialize (IHa _ _ _ _ Ea). specialize (IHb _ _ _ _ Eb).
+      assert (HMa : forall m, mentions m a = true -> M m = true)
+        by (intros m Hm; apply HM; cbn [mentions]; rewrite Hm; reflexivity).
+      assert (HMb : forall m, mentions m b = true -> M m = true)
+        by (intros m Hm; apply HM; cbn [mentions]; rewrite Hm; apply orb_true_r).
+      inversion Han; subst. specialize (IHa HMa _ _ _ _ _ Ea). specialize (IHb HMb _ _ _ _ _ Eb).
       inversion Hex; subst.
-      + split; [constructor | exact I].
+      + split; [constructor|]. simpl. eapply covers_mono; [exact Hcov | exact HTR].
       + match goal with Ha : exec a _ _ _ |- _ => destruct (IHa _ _ _ Hcov Ha) as [F P] end. split; [exact F|].
-        destruct o; simpl in *; auto; (eapply covers_mono; [exact P|]; intros m Hm; apply mem_union_iff; auto).
+        destruct o; simpl in *; (eapply covers_mono; [exact P|]; intros m Hm; apply union_l; exact Hm).
       + match goal with Ha : exec b _ _ _ |- _ => destruct (IHb _ _ _ Hcov Ha) as [F P] end. split; [exact F|].
-        destruct o; simpl in *; auto; (eapply covers_mono; [exact P|]; intros m Hm; apply mem_union_iff; auto).
+        destruct o; simpl in *; (eapply covers_mono; [exact P|]; intros m Hm; apply union_r; exact Hm).
     - (* SLoop *)
-      set (step := fun I => match analyse body I with Ok N0 _ C0 => union I (union N0 C0) | Bad _ => I end) in Han.
+      set (step := fun I => match analyse body I with Ok N0 _ C0 _ => union I (union N0 C0) | Bad _ => I end) in Han.
       set (inv := iter loop_fuel step T) in Han.
-      destruct (analyse body inv) as [Nb Bb Cb|] eqn:Eb; [|discriminate].
+      destruct (analyse body inv) as [Nb Bb Cb Rb|] eqn:Eb; [|discriminate].
       destruct (subset T inv && subset Nb inv && subset Cb inv) eqn:Es; [|discriminate].
       inversion Han; subst. apply andb_true_iff in Es. destruct Es as [Es Es3].
       apply andb_true_iff in Es. destruct Es as [Es1 Es2].
-      specialize (IHb _ _ _ _ Eb).
+      specialize (IHb HM _ _ _ _ _ Eb).
       assert (Hci : covers st inv) by (eapply covers_mono; [exact Hcov|]; intros m; apply subset_mem; exact Es1).
-      destruct (loop_sound body inv Nb Bb Cb IHb (fun m => subset_mem _ _ m Es2) (fun m => subset_mem _ _ m Es3)
+      destruct (loop_sound body inv Nb Bb Cb Rb IHb (fun m => subset_mem _ _ m Es2) (fun m => subset_mem _ _ m Es3)
                   st t o Hex Hci) as [F P].
       split; [exact F|]. destruct o; simpl; auto; contradiction.
     - (* SBreak *) inversion Han; subst. inversion Hex; subst; (split; [constructor | simpl; auto]).
@@ -295,39 +349,148 @@ Section Sound.
   Theorem fresh_writes_preserve_user : forall t (h : heap V), fresh_trace t ->
     forall k u, own u = User -> run h (firstn k t) u = h u.
   Proof. intros t h Hf k u Hu. apply run_fresh_preserves; [apply fresh_firstn; exact Hf | exact Hu]. Qed.
+End Sound.
+
+Section Bodies.
+  Variable V : Type.
+  Variable own : nat -> owner.
 
   Theorem body_ok_sound : forall b, body_ok b = true ->
-    forall st t o, covers st (b_tainted b) -> exec (b_code b) st t o ->
-      forall (h : heap V) k u, own u = User -> run h (firstn k t) u = h u.
+    forall st t o, covers own st (b_tainted b) -> exec V own (b_code b) st t o ->
+      forall (h : heap V) k u, own u = User -> run V h (firstn k t) u = h u.
   Proof.
     intros b Hok st t o Hcov Hex h k u Hu. unfold body_ok in Hok.
-    destruct (analyse (b_code b) (b_tainted b)) as [N B C|] eqn:Ea; [|discriminate].
-    destruct (analyse_sound _ _ _ _ _ Ea st t o Hcov Hex) as [F _].
-    apply fresh_writes_preserve_user; assumption.
+    destruct (analyse (b_code b) (b_tainted b)) as [N B C R|] eqn:Ea; [|discriminate].
+    destruct (analyse_sound V own (fun _ => true) _ (fun _ _ => eq_refl) _ _ _ _ _ Ea st t o Hcov Hex) as [F _].
+    apply (fresh_writes_preserve_user V own t h F k u Hu).
   Qed.
 
   Theorem writes_ok_sound : forall bs, writes_ok bs = true ->
     forall b, In b bs ->
-    forall st t o, covers st (b_tainted b) -> exec (b_code b) st t o ->
-      forall (h : heap V) k u, own u = User -> run h (firstn k t) u = h u.
+    forall st t o, covers own st (b_tainted b) -> exec V own (b_code b) st t o ->
+      forall (h : heap V) k u, own u = User -> run V h (firstn k t) u = h u.
   Proof.
     intros bs Hok b Hin. unfold writes_ok in Hok. rewrite forallb_forall in Hok.
     apply body_ok_sound. apply Hok. exact Hin.
   Qed.
-End Sound.
+End Bodies.
+
+(* ================================================================ (D) call histories on one object *)
+Section Hist.
+  Variable V : Type.
+  Variable own : nat -> owner.
+
+  Definition final_store (o : outcome) : store :=
+    match o with Norm s | Brk s | Cont s | Raised s => s end.
+
+  (* the persistent part of a store is safe w.r.t. cn: a persistent name that may denote a caller-owned
+     buffer is one of cn (the names every body treats as caller-owned and never writes through) *)
+  Definition pinv (cn : list name) (P : store) : Prop :=
+    forall n x, persistent n = true -> P n x -> own x = User -> mem n cn = true.
+
+  (* body b is entered with store st on an object whose persistent state is P: the persistent names denote
+     what the earlier calls left; everything else (arguments, locals) is arbitrary but declared: whatever may
+     be caller-owned is in the entry taint of b *)
+  Definition call_entry (P st : store) (b : body) : Prop :=
+    (forall n x, persistent n = true -> st n x -> P n x) /\
+    (forall n x, persistent n = false -> st n x -> own x = User -> mem n (b_tainted b) = true).
+
+  (* a history: any sequence of calls of checked bodies on the object; each call may return or be cut by a
+     raise anywhere; the store at that point is what the next call finds on `self` *)
+  Inductive history (bs : list body) : store -> list (nat * V) -> store -> Prop :=
+  | H_nil : forall P, history bs P [] P
+  | H_call : forall P b st t o t' P',
+      In b bs -> call_entry P st b -> exec V own (b_code b) st t o ->
+      history bs (final_store o) t' P' -> history bs P (t ++ t') P'.
+
+  Lemma mem_app_In : forall m A, mem m A = true -> In m A.
+  Proof. intros. apply mem_In. assumption. Qed.
+
+  (* a body neither reads nor changes a name it does not mention *)
+  Lemma exec_frame : forall s st t o, exec V own s st t o ->
+    forall n, mentions n s = false -> final_store o n = st n.
+  Proof.
+    intros s st t o Hex. induction Hex; intros m Hm; cbn [mentions] in Hm; simpl; try reflexivity.
+    - (* bind *) unfold upd. apply orb_false_iff in Hm. destruct Hm as [Hm _].
+      rewrite String.eqb_sym in Hm. rewrite Hm. reflexivity.
+    - (* seq *) apply orb_false_iff in Hm. destruct Hm as [Ha Hb].
+      rewrite (IHHex2 _ Hb). exact (IHHex1 _ Ha).
+    - apply orb_false_iff in Hm. destruct Hm as [Ha _]. exact (IHHex _ Ha).
+    - apply orb_false_iff in Hm. destruct Hm as [Ha _]. exact (IHHex _ Ha).
+    - apply orb_false_iff in Hm. destruct Hm as [Ha _]. exact (IHHex _ Ha).
+    - apply orb_false_iff in Hm. destruct Hm as [Ha _]. exact (IHHex _ Ha).
+    - apply orb_false_iff in Hm. destruct Hm as [_ Hb]. exact (IHHex _ Hb).
+    - (* loop next *) rewrite (IHHex2 _ Hm). exact (IHHex1 _ Hm).
+    - rewrite (IHHex2 _ Hm). exact (IHHex1 _ Hm).
+    - exact (IHHex _ Hm).
+    - exact (IHHex _ Hm).
+  Qed.
+
+  Lemma call_step : forall cn b P st t o,
+    persist_ok cn b = true -> pinv cn P -> call_entry P st b -> exec V own (b_code b) st t o ->
+    fresh_trace V own t /\ pinv cn (final_store o).
+  Proof.
+    intros cn b P st t o Hok HP [He1 He2] Hex. unfold persist_ok in Hok.
+    apply andb_true_iff in Hok. destruct Hok as [Hsub Hfin].
+    destruct (analyse (b_code b) (b_tainted b)) as [N B C R|] eqn:Ea; [|discriminate].
+    rewrite forallb_forall in Hsub.
+    set (M := fun n => mentions n (b_code b)).
+    assert (Hcov : covers_on own M st (b_tainted b)).
+    { intros n x HMn Hn Hu. destruct (persistent n) eqn:Ep.
+      - assert (Hc : mem n cn = true) by (eapply HP; eauto).
+        specialize (Hsub n (proj1 (mem_In _ _) Hc)). unfold M in HMn. rewrite HMn in Hsub. exact Hsub.
+      - eapply He2; eauto. }
+    destruct (analyse_sound V own M _ (fun m Hm => Hm) _ _ _ _ _ Ea st t o Hcov Hex) as [F Po].
+    split; [exact F|].
+    rewrite forallb_forall in Hfin.
+    intros n x Hp Hn Hu.
+    destruct (mentions n (b_code b)) eqn:Emn.
+    - assert (Hin : In n (N ++ B ++ C ++ R)).
+      { destruct o; simpl in Po, Hn; pose proof (Po _ _ Emn Hn Hu) as Hm; apply mem_In in Hm;
+          repeat (apply in_or_app; first [left; exact Hm | right]); exact Hm. }
+      specialize (Hfin _ Hin). rewrite Hp in Hfin. simpl in Hfin. exact Hfin.
+    - rewrite (exec_frame _ _ _ _ Hex _ Emn) in Hn. eapply HP; eauto.
+  Qed.
+
+  Theorem history_sound : forall cn bs, forallb (persist_ok cn) bs = true ->
+    forall P t P', pinv cn P -> history bs P t P' -> fresh_trace V own t /\ pinv cn P'.
+  Proof.
+    intros cn bs Hall P t P' HP Hh. rewrite forallb_forall in Hall.
+    induction Hh as [P | P b st t o t' P' Hin Hent Hex Hrest IH].
+    - split; [constructor | exact HP].
+    - destruct (call_step cn b P st t o (Hall _ Hin) HP Hent Hex) as [F HP1].
+      destruct (IH HP1) as [F' HP']. split; [|exact HP'].
+      apply Forall_app. split; assumption.
+  Qed.
+
+  (* after ANY history of calls (returning or raising) on one object, cut anywhere, every caller-owned buffer
+     holds what it held before the first call *)
+  Theorem history_preserves_user : forall cn bs, forallb (persist_ok cn) bs = true ->
+    forall P t P', pinv cn P -> history bs P t P' ->
+    forall (h : heap V) k u, own u = User -> run V h (firstn k t) u = h u.
+  Proof.
+    intros cn bs Hall P t P' HP Hh h k u Hu.
+    destruct (history_sound cn bs Hall P t P' HP Hh) as [F _].
+    apply (fresh_writes_preserve_user V own t h F k u Hu).
+  Qed.
+
+  (* a new object: nothing is stored on it yet *)
+  Lemma pinv_empty : forall cn, pinv cn (fun _ _ => False).
+  Proof. intros cn n x _ H. contradiction. Qed.
+End Hist.
 
 (* `self.a = e` followed by the assertion (a pseudo write through self.a) that the translator emits for every
    attribute it claims fresh: if the checker accepts, then in EVERY state covered by the entry taint the value
    just stored denotes library-allocated buffers only -- whether or not execution continues after the store *)
-Lemma bind_then_assert_fresh : forall (own : nat -> owner) n r l T N B C,
-  analyse (SSeq (SBind n r) (SWrite n l)) T = Ok N B C ->
+Lemma bind_then_assert_fresh : forall (own : nat -> owner) n r l T N B C R,
+  analyse (SSeq (SBind n r) (SWrite n l)) T = Ok N B C R ->
   forall (st : store) (S : nat -> Prop), covers own st T -> rhs_sem own r st S ->
   forall b, S b -> own b = Fresh.
 Proof.
-  intros own n r l T N B C Han st S Hcov Hr b Hb.
+  intros own n r l T N B C R Han st S Hcov Hr b Hb.
   assert (Hex : exec unit own (SSeq (SBind n r) (SWrite n l)) st ([] ++ [(b, tt)]) (Norm (upd st n S))).
   { eapply X_Seq; [apply X_Bind; exact Hr|]. apply X_Write. unfold upd. rewrite String.eqb_refl. exact Hb. }
-  destruct (analyse_sound unit own _ _ _ _ _ Han st _ _ Hcov Hex) as [F _].
+  destruct (analyse_sound unit own (fun _ => true) _ (fun _ _ => eq_refl) _ _ _ _ _ Han st _ _ Hcov Hex) as [F _].
   inversion F; subst. assumption.
 Qed.
 
